@@ -827,7 +827,7 @@ LENIENT = "pack Pile child supports only fixed sizing"
 # ------------------------------------------------------------------ the check
 class C01(core.Check):
     pid = "C01"
-    gen_modules = []
+    gen_modules = ["layout"]        # C19's translated arithmetic (round_half_up_div): its Columns width theorem is imported
     model_targets = ["theories/Model/WidgetDims.vo"]
     prop_file = "theories/Properties/C01.v"
     extract_v = "Extract/C01X.v"
